@@ -1,7 +1,9 @@
 (* XmlFileFacts.v — facts about the file-level model (Model/XmlFile.v): the shape of every document xml_encode produces,
-   referents that are never `null`, `null` for empty references, and computed witnesses of the behaviours the
-   implementation-side oracles report (name lost for a class the database does not know, duplicate UniqueIds decoded as
-   they are, an ignored unknown Ref property resurrected by the rewrite pass).  Standard library only. *)
+   referents that are never `null`, `null` for empty references; the reader steps repaired in /repo (an ignored property
+   leaves no trace in the parse state: 8e3b6855; the Name element of a class without a Name descriptor is read: 9d6f480a)
+   proven for every input, with computed instances through the whole codec; the writer step of 62703803 (an explicit new
+   value wins over a migrating legacy one) as a computed instance; and, about the `_pinned` definitions (= the code before
+   those commits), the computed witnesses of what the implementation-side oracles used to report.  Standard library only. *)
 From Coq Require Import List NArith ZArith Bool Lia String.
 From RbxVerif Require Import Base Bytes Value Db CodecDom XmlEvents XmlValues XmlFile XmlInt XmlText.
 Import ListNotations.
@@ -9,14 +11,19 @@ Open Scope list_scope.
 Open Scope N_scope.
 
 (* ---- every document is one `roblox` element of version 4 *)
-Theorem xml_encode_root e beh d roots evs :
-  xml_encode e beh d roots = Ok evs ->
+Lemma xml_encode_with_root sprop e beh d roots evs :
+  xml_encode_with sprop e beh d roots = Ok evs ->
   exists body, evs = WStart (B "roblox") [(B "version", B "4")] :: body ++ [WEnd].
 Proof.
-  unfold xml_encode. intro H.
+  unfold xml_encode_with. intro H.
   match type of H with (rbind ?X _ = _) => destruct X as [[body st]| |c|] eqn:E end; cbn [rbind] in H; try discriminate.
   inversion H. exists (body ++ serialize_shared_strings st). rewrite <- app_assoc. reflexivity.
 Qed.
+
+Theorem xml_encode_root e beh d roots evs :
+  xml_encode e beh d roots = Ok evs ->
+  exists body, evs = WStart (B "roblox") [(B "version", B "4")] :: body ++ [WEnd].
+Proof. apply xml_encode_with_root. Qed.
 
 (* ---- referents are decimal numbers: never the reserved word `null` *)
 Theorem referent_never_null n : dec_of_N n <> B "null".
@@ -42,6 +49,59 @@ Proof.
       * cbn [bfind]. rewrite E. exact IH.
 Qed.
 
+(* ------------------------------------------------------------------ the repaired reader steps, for every input *)
+Lemma firstn_length_app {A} (l : list A) x : firstn (length l) (l ++ x) = l.
+Proof. rewrite firstn_app, Nat.sub_diag, firstn_all. cbn [firstn]. apply app_nil_r. Qed.
+
+(* reading a value changes nothing of the parse state but the two rewrite queues, and those only by appending *)
+Lemma read_prop_value_queues e st ty id pn evs ov st1 rest :
+  read_prop_value e st ty id pn evs = Ok ((ov, st1), rest) -> drop_queued st st1 = st.
+Proof.
+  unfold read_prop_value, xbind. destruct (read_value_xml (xe_o e) ty evs) as [[rvl r]| |c|]; try discriminate.
+  destruct st as [nodes next refs rw sh srw].
+  destruct rvl; unfold xret; intro H; inversion H; subst; unfold drop_queued; cbn [ds_nodes ds_next ds_refs ds_rewrites ds_shared ds_srewrites];
+    rewrite ?firstn_length_app, ?firstn_all; reflexivity.
+Qed.
+
+(* 8e3b6855: with IgnoreUnknown a property without a descriptor (other than Name) changes neither the parse state, in
+   particular not the queues the second pass works off, nor the property map: whatever its type (Ref and SharedString
+   included), it cannot reach the decoded DOM *)
+Theorem ignored_property_leaves_no_trace e class id ty pname st props evs st' props' rest :
+  bytes_eqb pname (B "Name") = false ->
+  find_desc_xml (xe_db e) (S_ class) (S_ pname) = Ok None ->
+  deserialize_property e DIgnoreUnknown class id ty pname st props evs = Ok ((st', props'), rest) ->
+  st' = st /\ props' = props.
+Proof.
+  intros Hn Hd. unfold deserialize_property. rewrite Hn, Hd. unfold xlift, xbind at 1 2. 
+  unfold xbind. destruct (read_prop_value e st ty id pname evs) as [[[ov st1] r]| |c|] eqn:E; try discriminate.
+  unfold xret. intro H. inversion H; subst. split; [|reflexivity].
+  exact (read_prop_value_queues _ _ _ _ _ _ _ _ _ E).
+Qed.
+
+Lemma read_string_element o a s rest :
+  read_value_xml o (B "string") (RStart (B "string") a :: text_events s ++ REnd (B "string") :: rest) = Ok (RVal (VString s), rest).
+Proof.
+  change (read_value_xml o (B "string")) with (rv VString "string" x_chars).
+  unfold rv, outer, x_in_tag, xbind, x_expect_start, x_next, xret. cbn [xbind]. rewrite bytes_eqb_refl.
+  unfold x_chars. rewrite (x_chars_text_events s [] (REnd (B "string")) rest) by exact I. cbn [app].
+  unfold x_expect_end, xbind, x_next. rewrite bytes_eqb_refl. reflexivity.
+Qed.
+
+(* 9d6f480a: whenever reflection is in use and the lookup finds no `Name` descriptor for the class (a class missing from
+   the database, a class deriving from Object), the Name element, as the writer writes it, is read and kept *)
+Theorem name_of_undescribed_class_is_read e beh class id a s st props rest :
+  beh <> DNoReflection ->
+  find_desc_xml (xe_db e) (S_ class) "Name" = Ok None ->
+  deserialize_property e beh class id (B "string") (B "Name") st props (RStart (B "string") a :: text_events s ++ REnd (B "string") :: rest)
+  = Ok ((st, bupd (B "Name") (VString s) props), rest).
+Proof.
+  intros Hb Hd. unfold deserialize_property.
+  change (S_ (B "Name")) with "Name"%string. rewrite Hd.
+  replace (bytes_eqb (B "Name") (B "Name")) with true by reflexivity.
+  destruct beh; try (exfalso; apply Hb; reflexivity).
+  all: cbn [rbind xlift]; unfold xbind, read_prop_value; unfold xbind, xlift; rewrite read_string_element; reflexivity.
+Qed.
+
 (* ------------------------------------------------------------------ computed witnesses *)
 Definition o0 : xoracle := mkXO (fun _ => None) (fun _ => None) (fun _ => None) (fun _ => None) (fun _ => None) (fun _ => None).
 Definition e0 : xenv := mkXE (mkDb [] []) [] [] o0 (fun _ => None).
@@ -49,14 +109,23 @@ Definition e0 : xenv := mkXE (mkDb [] []) [] [] o0 (fun _ => None).
 Definition through (enc : ebehavior) (dec : dbehavior) (d : cdom) (roots : list N) : res cdom :=
   evs <- xml_encode e0 enc d roots ;; revs <- channel evs ;; xml_decode e0 dec revs.
 
-(* With the default options an instance whose class the database does not know loses its Name: the `Name` element is
-   an unknown property of an unknown class, read and thrown away, and the instance is named after its class. *)
-Theorem name_lost_for_unknown_class :
-  through EIgnoreUnknown DIgnoreUnknown [mkInst 1 0 (B "Zzz") (B "hello") []] [1]
+Definition through_pinned (enc : ebehavior) (dec : dbehavior) (d : cdom) (roots : list N) : res cdom :=
+  evs <- xml_encode_pinned e0 enc d roots ;; revs <- channel evs ;; xml_decode_pinned e0 dec revs.
+
+(* Before 9d6f480a: with the default options an instance whose class the database does not know lost its Name: the `Name`
+   element was an unknown property of an unknown class, read and thrown away, and the instance was named after its class. *)
+Theorem name_lost_for_unknown_class_pinned :
+  through_pinned EIgnoreUnknown DIgnoreUnknown [mkInst 1 0 (B "Zzz") (B "hello") []] [1]
   = Ok [mkInst 1 0 (B "Zzz") (B "Zzz") []].
 Proof. vm_compute. reflexivity. Qed.
 
-(* ... whereas the pairing that keeps unknown properties preserves it *)
+(* ... the repaired reader keeps it (names with leading/trailing whitespace and `]]>` included) *)
+Theorem name_kept_for_unknown_class :
+  through EIgnoreUnknown DIgnoreUnknown [mkInst 1 0 (B "Zzz") (B "hello") []; mkInst 2 1 (B "Yyy") (B " a ]]> b ") []] [1]
+  = Ok [mkInst 1 0 (B "Zzz") (B "hello") []; mkInst 2 1 (B "Yyy") (B " a ]]> b ") []].
+Proof. vm_compute. reflexivity. Qed.
+
+(* the pairing that keeps unknown properties always preserved it *)
 Theorem name_kept_with_read_unknown :
   through EWriteUnknown DReadUnknown [mkInst 1 0 (B "Zzz") (B " hello ]]> ") []] [1]
   = Ok [mkInst 1 0 (B "Zzz") (B " hello ]]> ") []].
@@ -75,15 +144,60 @@ Theorem duplicate_unique_ids_survive_decoding :
         mkInst 2 0 (B "Folder") (B "Folder") [(B "UniqueId", VUniqueId 1 2 3)]].
 Proof. vm_compute. reflexivity. Qed.
 
-(* An unknown Ref property is "ignored" by DecodePropertyBehavior::IgnoreUnknown, yet read_ref has already queued a
-   referent rewrite for it, and apply_referent_rewrites inserts the property afterwards. *)
-Theorem ignored_ref_property_resurrected :
-  xml_decode e0 DIgnoreUnknown
-    [RStartDoc; RStart (B "roblox") [(B "version", B "4")];
-     RStart (B "Item") [(B "class", B "Folder"); (B "referent", B "RBX1")]; RStart (B "Properties") [];
-     RStart (B "Ref") [(B "name", B "Future")]; RChars (B "RBX1"); REnd (B "Ref");
-     REnd (B "Properties"); REnd (B "Item"); REnd (B "roblox"); REndDoc]
-  = Ok [mkInst 1 0 (B "Folder") (B "Folder") [(B "Future", VRef 1)]].
+(* Before 8e3b6855: an unknown Ref property was "ignored" by DecodePropertyBehavior::IgnoreUnknown, yet read_ref had
+   already queued a referent rewrite for it, and apply_referent_rewrites inserted the property afterwards. *)
+Definition doc_ignored_ref : list revent :=
+  [RStartDoc; RStart (B "roblox") [(B "version", B "4")];
+   RStart (B "Item") [(B "class", B "Folder"); (B "referent", B "RBX1")]; RStart (B "Properties") [];
+   RStart (B "Ref") [(B "name", B "Future")]; RChars (B "RBX1"); REnd (B "Ref");
+   REnd (B "Properties"); REnd (B "Item"); REnd (B "roblox"); REndDoc].
+Theorem ignored_ref_property_resurrected_pinned :
+  xml_decode_pinned e0 DIgnoreUnknown doc_ignored_ref = Ok [mkInst 1 0 (B "Folder") (B "Folder") [(B "Future", VRef 1)]].
+Proof. vm_compute. reflexivity. Qed.
+
+(* the repaired reader: the property stays ignored; the same for a SharedString the dictionary defines *)
+Theorem ignored_ref_property_stays_ignored :
+  xml_decode e0 DIgnoreUnknown doc_ignored_ref = Ok [mkInst 1 0 (B "Folder") (B "Folder") []].
+Proof. vm_compute. reflexivity. Qed.
+
+Definition doc_ignored_shared : list revent :=
+  [RStartDoc; RStart (B "roblox") [(B "version", B "4")];
+   RStart (B "Item") [(B "class", B "Folder"); (B "referent", B "RBX1")]; RStart (B "Properties") [];
+   RStart (B "SharedString") [(B "name", B "Future")]; RChars (B "k1"); REnd (B "SharedString");
+   REnd (B "Properties"); REnd (B "Item");
+   RStart (B "SharedStrings") []; RStart (B "SharedString") [(B "md5", B "k1")]; RChars (B "eHl6"); REnd (B "SharedString"); REnd (B "SharedStrings");
+   REnd (B "roblox"); REndDoc].
+Theorem ignored_shared_string_property_resurrected_pinned :
+  xml_decode_pinned e0 DIgnoreUnknown doc_ignored_shared = Ok [mkInst 1 0 (B "Folder") (B "Folder") [(B "Future", VSharedString (B "xyz"))]].
+Proof. vm_compute. reflexivity. Qed.
+Theorem ignored_shared_string_property_stays_ignored :
+  xml_decode e0 DIgnoreUnknown doc_ignored_shared = Ok [mkInst 1 0 (B "Folder") (B "Folder") []].
+Proof. vm_compute. reflexivity. Qed.
+
+(* 62703803 (C15, write path): a class with a legacy property MeshId migrating to MeshContent; an instance carrying both.
+   Before the repair both were written as <Content name="MeshContent">, the explicit one first (MeshContent < MeshId), and
+   the reader kept the later, legacy one; now the migrated legacy element is not written and the explicit value survives. *)
+Definition db_mesh : db :=
+  mkDb [mkCD "Mesh" None false
+          [mkPD "MeshId" (DValue 8) (KCanon (PMigrate "MeshContent" MigContent));
+           mkPD "MeshContent" (DValue 39) (KCanon PSerializes);
+           mkPD "Name" (DValue 24) (KCanon PSerializes)] []] [].
+Definition e_mesh : xenv := mkXE db_mesh [] [] o0 (fun _ => None).
+Definition mesh_both : cdom :=
+  [mkInst 1 0 (B "Mesh") (B "m") [(B "MeshId", VContentId (B "legacy")); (B "MeshContent", VContent (CUri (B "explicit")))]].
+Theorem explicit_new_value_lost_pinned :
+  (evs <- xml_encode_pinned e_mesh EIgnoreUnknown mesh_both [1] ;; revs <- channel evs ;; xml_decode e_mesh DIgnoreUnknown revs)
+  = Ok [mkInst 1 0 (B "Mesh") (B "m") [(B "MeshContent", VContent (CUri (B "legacy")))]].
+Proof. vm_compute. reflexivity. Qed.
+Theorem explicit_new_value_wins :
+  (evs <- xml_encode e_mesh EIgnoreUnknown mesh_both [1] ;; revs <- channel evs ;; xml_decode e_mesh DIgnoreUnknown revs)
+  = Ok [mkInst 1 0 (B "Mesh") (B "m") [(B "MeshContent", VContent (CUri (B "explicit")))]].
+Proof. vm_compute. reflexivity. Qed.
+(* ... and a legacy property alone is still migrated *)
+Theorem legacy_alone_still_migrated :
+  (evs <- xml_encode e_mesh EIgnoreUnknown [mkInst 1 0 (B "Mesh") (B "m") [(B "MeshId", VContentId (B "legacy"))]] [1] ;;
+   revs <- channel evs ;; xml_decode e_mesh DIgnoreUnknown revs)
+  = Ok [mkInst 1 0 (B "Mesh") (B "m") [(B "MeshContent", VContent (CUri (B "legacy")))]].
 Proof. vm_compute. reflexivity. Qed.
 
 (* a forward reference and a shared string are resolved by the second pass *)
